@@ -112,11 +112,12 @@ PROPS = {
             {'engine': 'verus', 'name': 'flat_map', 'tier': 'quick', 'role': "FlatMap::next: the items of an input element leave one per call in order, stamped with that element's timestamp; the next input is pulled only when the iterator is exhausted, so control elements (Watermark) leave unchanged and only after every derived item"},
             {'engine': 'verus', 'name': 'sort_merge', 'tier': 'quick', 'role': "JoinLocalSortMerge::{discard_right,next} (NARROWED: the iteration protocol around the merge): sides stored with their keyer's key, sorted at their end marker, tuples only after both sides ended, unmatched right element padded once iff outer, constructor state restored at FlushAndRestart (nothing carried over). The merge loop  is ASSUMED, not verified"},
             {'engine': 'verus', 'name': 'interval_join', 'tier': 'quick', 'role': "IntervalJoin::{advance,next} (NARROWED: soundness + iteration protocol): a left element is queued at the back of the left queue, a right element at the back of its key's queue, with their timestamps; every emitted tuple pairs a left and a right element stored under the SAME key with lt - lower <= rt <= lt + upper, stamped max(lt, rt); queues are consumed from the front only; both sides are emptied at the end of the iteration and the constructor state is restored at FlushAndRestart (the real code's asserts are proved). Completeness (every pair in the interval emitted) is NOT decided"},
+            {'engine': 'verus', 'name': 'rich_map', 'tier': 'quick', 'role': "RichMap::next (keyed stateful map): one instance of the user's function per key, a clone of the initial one at the key's first element; an element is handed exactly once to the instance of ITS key, other keys' state untouched; key, kind and timestamp kept; control elements unchanged and touching no state"},
         ],
         'explanation': 'Verus proof of the per-call contract of Start::next (any number of upstream replicas, any batches): FlushAndRestart is returned exactly when every '
                        'upstream FlushAndRestart of the iteration was consumed (and the per-iteration state restarts), Terminate exactly when every upstream Terminate was consumed, '
                        'and then forever; only control elements are absorbed. Stateful operators (folds, joins, windows, reorder, zip) are added as further units.',
-        'assumptions': ['termination of next() (it blocks on the network) is not verified', 'Replay/Iterate/IterationLeader as grammar transducers are not covered (their logic is under C10); RichMap, keyed and interval joins are not covered'],
+        'assumptions': ['termination of next() (it blocks on the network) is not verified', 'Replay/Iterate/IterationLeader as grammar transducers are not covered (their logic is under C10); the keyed-stream join is not covered'],
     },
     'C16': {
         'level': 'proof',
@@ -160,9 +161,10 @@ PROPS = {
             {'engine': 'verus', 'name': 'add_timestamps', 'tier': 'quick', 'role': "AddTimestamp::next: item stamped with the generator's timestamp, the generator's watermark leaves in the very next call before anything else is pulled, control elements pass through unchanged; DropTimestamp::next: watermarks absorbed, timestamps stripped, the rest unchanged"},
             {'engine': 'verus', 'name': 'chain_ops', 'tier': 'quick', 'role': 'Map/KeyBy/FilterMap/Filter/Inspect::next and StreamElement::map: one output per surviving input in pull order, kind and timestamp kept, control elements (Watermark, FlushBatch, FlushAndRestart, Terminate) pass through unchanged and are never created or swallowed; filters drop exactly the rejected data elements'},
             {'engine': 'verus', 'name': 'flat_map', 'tier': 'quick', 'role': "FlatMap::next: the items of an input element leave one per call in order, stamped with that element's timestamp; the next input is pulled only when the iterator is exhausted, so control elements (Watermark) leave unchanged and only after every derived item"},
+            {'engine': 'verus', 'name': 'rich_map', 'tier': 'quick', 'role': "RichMap::next (keyed stateful map): one instance of the user's function per key, a clone of the initial one at the key's first element; an element is handed exactly once to the instance of ITS key, other keys' state untouched; key, kind and timestamp kept; control elements unchanged and touching no state"},
         ],
         'explanation': 'per-operator watermark contracts proved on the real next() functions (Verus, unbounded) plus the frontier / event-time window contracts (Kani single-call harnesses, bounded state size).',
-        'assumptions': ['W_in: the operator input respects the watermark contract (at sources: the user\'s watermark generator)', 'joins and RichMap are not under a watermark contract'],
+        'assumptions': ['W_in: the operator input respects the watermark contract (at sources: the user\'s watermark generator)', 'joins are not under a watermark contract'],
     },
     'C13': {
         'level': 'proof',
@@ -183,10 +185,11 @@ PROPS = {
             {'engine': 'verus', 'name': 'keyed_fold', 'tier': 'quick', 'role': 'KeyedFold::{process_item,next}: per iteration exactly one result per key that occurs = sequential left fold of the key\'s values from a clone of init (lemma_run_per_key), stamped with the key\'s max timestamp; any HashMap drain order'},
             {'engine': 'verus', 'name': 'two_phase', 'tier': 'quick', 'role': 'lemma: local-then-global fold over any partition equals the sequential fold (assoc/commutative laws as hypotheses)'},
             {'engine': 'verus', 'name': 'aggregators', 'tier': 'quick', 'role': 'the closures of group_by_reduce / reduce / reduce_assoc (first value starts, f folds the rest; partial results merged with f, an empty partial changes nothing) and the (local, global) closure pairs of group_by_avg / group_by_sum / group_by_count: local adds one value (and counts it), global merges partial sums and adds partial counts; lemma: merging the totals of two runs == total of the concatenation (associative +)'},
+            {'engine': 'verus', 'name': 'rich_map', 'tier': 'quick', 'role': "RichMap::next (keyed stateful map): one instance of the user's function per key, a clone of the initial one at the key's first element; an element is handed exactly once to the instance of ITS key, other keys' state untouched; key, kind and timestamp kept; control elements unchanged and touching no state"},
         ],
         'explanation': 'Verus proof on the real Fold::next that each iteration yields exactly the sequential left fold of its items (user closure = assumed function), plus a pure lemma that the '
                        'two-phase (local pre-aggregation, then global) form equals the sequential fold for every partition of the input, empty partitions included.',
-        'assumptions': ['KeyedFold: std HashMap by its map view, Entry API replaced by its definition (unit keyed_fold)', 'keyed rich_map state not covered'],
+        'assumptions': ['KeyedFold: std HashMap by its map view, Entry API replaced by its definition (unit keyed_fold)', 'group_by_min/max_element closures (generic Ord comparison) and the final float division of avg are not covered'],
     },
     'C14': {
         'level': 'proof',
